@@ -508,11 +508,19 @@ static void json_str(FILE *f, const char *s) {
     fputc('"', f);
 }
 
+static FILE *g_dump;
+static unsigned g_dump_every = 1;
+static uint64_t g_dump_max = 200000, g_dumped;
+
 void vf_finish(void) {
     if (g_finished) {
         return;
     }
     g_finished = 1;
+    if (g_dump) {
+        fclose(g_dump);
+        g_dump = NULL;
+    }
     const char *path = getenv("VF_STATS");
     if (!path) {
         return;
@@ -618,6 +626,18 @@ void vf_init(const char *engine) {
         }
         g_setmax = c;
     }
+    e = getenv("VF_DUMP_CASES");
+    if (e) {
+        g_dump = fopen(e, "wb");
+        const char *k = getenv("VF_DUMP_EVERY");
+        if (k && atoi(k) > 0) {
+            g_dump_every = (unsigned)atoi(k);
+        }
+        k = getenv("VF_DUMP_MAX");
+        if (k) {
+            g_dump_max = strtoull(k, NULL, 10);
+        }
+    }
     e = getenv("VF_CASE_TIMEOUT");
     if (e) {
         g_case_timeout = (unsigned)atoi(e);
@@ -642,7 +662,24 @@ void vf_init(const char *engine) {
     }
 }
 
+/* optional case dump: every VF_DUMP_EVERY-th executed case is appended to
+ * VF_DUMP_CASES as [u32 length][bytes], so configurations that cannot link the
+ * generating library (MSan) replay exactly the generated cases */
+
+static void dump_case(const uint8_t *data, size_t size) {
+    if (g_dumped >= g_dump_max || (g_cases % g_dump_every) != 0) {
+        return;
+    }
+    uint32_t n = (uint32_t)size;
+    fwrite(&n, sizeof(n), 1, g_dump);
+    fwrite(data, 1, size, g_dump);
+    g_dumped++;
+}
+
 int vf_run_case(const uint8_t *data, size_t size, vf_report *rep) {
+    if (g_dump) {
+        dump_case(data, size);
+    }
     memset(rep, 0, offsetof(vf_report, desc));
     rep->desc[0] = 0;
     rep->desclen = 0;
